@@ -29,13 +29,17 @@ import (
 
 	"github.com/ethereum/go-ethereum/common"
 	"github.com/ethereum/go-ethereum/core/types"
+	"github.com/ethereum/go-ethereum/crypto"
 	"github.com/ethereum/go-ethereum/ethdb"
 	"github.com/ethereum/go-ethereum/ethdb/memorydb"
 	"github.com/ethereum/go-ethereum/internal/verif/crashkv"
 	"github.com/ethereum/go-ethereum/internal/verif/mc"
 	"github.com/ethereum/go-ethereum/internal/verif/vos"
+	"github.com/ethereum/go-ethereum/params"
 	"github.com/ethereum/go-ethereum/rlp"
 )
+
+var c25Key, _ = crypto.HexToECDSA("b71c71a67e1177ad4e901695e1b4b9ee17ae16c6668d313eac2f96dbcda3f291")
 
 // ---- chains -------------------------------------------------------------------
 
@@ -59,7 +63,7 @@ func c25Build(parents []int, final uint64) *c25Chain {
 	c := &c25Chain{parents: parents, final: final}
 	gen := &types.Header{Number: big.NewInt(0), Extra: []byte("c25-genesis"), Difficulty: big.NewInt(1), GasLimit: 30_000_000}
 	mk := func(idx int, h *types.Header) *c25Block {
-		tx := types.NewTx(&types.LegacyTx{Nonce: uint64(idx), To: &common.Address{0xc2, 0x5, byte(idx)}, Value: big.NewInt(int64(idx) + 1), Gas: 21000, GasPrice: big.NewInt(1)})
+		tx := types.MustSignNewTx(c25Key, types.LatestSigner(params.TestChainConfig), &types.LegacyTx{Nonce: uint64(idx), To: &common.Address{0xc2, 0x5, byte(idx)}, Value: big.NewInt(int64(idx) + 1), Gas: 21000, GasPrice: big.NewInt(1)})
 		blk := types.NewBlockWithHeader(h).WithBody(types.Body{Transactions: []*types.Transaction{tx}})
 		rc := &types.Receipt{Type: types.LegacyTxType, Status: types.ReceiptStatusSuccessful, CumulativeGasUsed: 21000 + uint64(idx), Logs: []*types.Log{{Address: common.Address{byte(idx)}, Topics: []common.Hash{{byte(idx)}}, Data: []byte{byte(idx), 1}}}}
 		return &c25Block{idx: idx, number: h.Number.Uint64(), block: blk, receipts: types.Receipts{rc}}
